@@ -514,28 +514,27 @@ class Fn:
                     removed.add((b, i))
         return pos.b in self.reachable_blocks(removed_edges=removed), removed
 
-    def guard_atoms(self, pos, extra_edges=None):
-        """guards() normalised: negations and __builtin_expect / casts stripped:
-        [(atom_expr, polarity, block)]."""
+    def cond_atoms(self, cond, pol, b=None):
+        """What a branch condition taking the value `pol` says, as atoms [(expr, polarity, block)]:
+        negations, casts and __builtin_expect stripped; `X && Y` true / `X || Y` false split into
+        their operands; the same with named temporaries written out (expand_expr); and for
+        `X == 0`, `X != nullptr`, `flag == true` ... the truth value of X itself."""
         res = []
         seen = set()
 
-        def add(cond, pol, b, tag=""):
+        def add(cond, pol, tag=""):
             a, p = normalize_cond(cond, pol)
             # clang reports the *whole* condition for the last operand of a chain of logical
             # operators: (X && Y) true => X true and Y true; (X || Y) false => X false and Y false.
             if isinstance(a, dict) and a.get("k") == "bin" and ((a.get("op") == "&&" and p) or (a.get("op") == "||" and not p)):
-                add(a.get("l"), p, b, tag)
-                add(a.get("r"), p, b, tag)
+                add(a.get("l"), p, tag)
+                add(a.get("r"), p, tag)
                 return
             key = (a.get("sid") if isinstance(a, dict) else id(a), p, tag)
             if key in seen:
                 return
             seen.add(key)
             res.append((a, p, b))
-            # `X == 0`, `X != nullptr`, `flag == true`, ... also say something about the truth
-            # value of X itself: add that reading next to the comparison (rules written for
-            # `if (X)` / `if (!X)` then recognise the spelled-out forms as well)
             if isinstance(a, dict) and a.get("k") == "bin" and a.get("op") in ("==", "!="):
                 for x, o in ((a.get("l"), a.get("r")), (a.get("r"), a.get("l"))):
                     oc = strip_casts(o)
@@ -545,17 +544,35 @@ class Fn:
                     if oc.get("k") == "null":
                         v = 0
                     if v in (0, False):
-                        add(x, p if a["op"] == "!=" else (not p), b, tag + "t")
-                    elif v is True or (v == 1 and (strip_casts(x) or {}).get("ctype", (strip_casts(x) or {}).get("type", "")) in ("bool", "const bool")):
-                        add(x, p if a["op"] == "==" else (not p), b, tag + "t")
+                        add(x, p if a["op"] == "!=" else (not p), tag + "t")
+                    elif v is True or (v == 1 and (oc.get("bool") or (strip_casts(x) or {}).get("ctype", (strip_casts(x) or {}).get("type", "")) in ("bool", "const bool"))):
+                        add(x, p if a["op"] == "==" else (not p), tag + "t")
                     break
 
-        for cond, pol, b in self.guards(pos, extra_edges):
-            add(cond, pol, b)
-            x = self.expand_expr(cond)
-            if x is not cond:
-                add(x, pol, b, "x")      # the same guard with named temporaries written out
+        add(cond, pol)
+        x = self.expand_expr(cond)
+        if x is not cond:
+            add(x, pol, "x")      # the same guard with named temporaries written out
         return res
+
+    def guard_atoms(self, pos, extra_edges=None):
+        """guards() as atoms (see cond_atoms): [(atom_expr, polarity, block)]."""
+        res = []
+        for cond, pol, b in self.guards(pos, extra_edges):
+            res.extend(self.cond_atoms(cond, pol, b))
+        return res
+
+    def edges_where(self, pred, value=True):
+        """CFG branch edges {(block, succ index)} on which an expression satisfying pred(expr) is
+        known to have the truth value `value` -- however the test is spelled (`if (x)`,
+        `if (!x) ... else`, `const bool ok = x; if (ok == false)`, `x && y`)."""
+        out = set()
+        for b, t in self.branch_blocks():
+            for i in (0, 1):
+                for a, p, _ in self.cond_atoms(t["cond"], i == 0, b):
+                    if p == value and pred(a):
+                        out.add((b, i))
+        return out
 
     # ---- copy propagation of named temporaries ------------------------------------------------------
     def _stable_locals(self):
@@ -704,6 +721,11 @@ def _is_zero(e):
     return isinstance(e, dict) and e.get("k") in ("int", "bool", "null") and const_val(e) in (0, False)
 
 
+def _is_true(e):
+    e = strip_casts(e)
+    return isinstance(e, dict) and e.get("k") == "int" and e.get("bool") and const_val(e) in (1, True)
+
+
 def _boolish(e):
     """an expression whose truth value is what a `!= 0` around it tests: a bit test, a logical
     expression, a comparison, or something of type bool"""
@@ -738,6 +760,12 @@ def normalize_cond(cond, pol):
             x = l if _is_zero(r) else (r if _is_zero(l) else None)
             if x is not None and _boolish(x):
                 if e["op"] == "==":
+                    pol = not pol
+                e = x
+                continue
+            x = l if _is_true(r) else (r if _is_true(l) else None)
+            if x is not None and _boolish(x):
+                if e["op"] == "!=":
                     pol = not pol
                 e = x
                 continue
